@@ -20,6 +20,11 @@ PINS = os.path.join(HERE, 'pins.json')
 
 # property -> source files whose functions the hand model covers (None: every function of the file)
 COVER = {
+    # the coordinate classes are observation points of C01-C03 (CoordGeo.tm / CoordTM.geo / CoordGeo.cart / CoordCart.geo) that their
+    # regenerated models do not include: a change of coord.py enlarges their searches (object histories among them)
+    'C01': {'geodepy/coord.py': None},
+    'C02': {'geodepy/coord.py': None},
+    'C03': {'geodepy/coord.py': None},
     'C08': {'geodepy/angles.py': None},
     'C12': {'geodepy/angles.py': None},
     'C15': {'geodepy/coord.py': None},
